@@ -5,6 +5,7 @@ import (
 	"fmt"
 	"math"
 	"math/rand"
+	"runtime"
 	"sort"
 	"strings"
 	"sync"
@@ -49,8 +50,8 @@ func init() {
 			"ground truth from the harness' own operation log; (b) Failover/FailoverOf over a named wrapped backend driven by the C01 case generator (steered and free, no fault injection), ground truth from the event log " +
 			"(backend reads by result class, writes, builder invocations, failing ones, refresh writes, failure-cache writes); oracle at quiescence per name label, per metric and for the documented sums; " +
 			"distinct_nontrivial = distinct (family, backend/config, metric-vector) outcomes with at least 3 non-zero metrics",
-		Required:    []string{"a.sequential", "a.concurrent", "a.bulk_phases", "b.runs", "c.conservation", "d.panicking_builder_runs", "metric.cache_hit", "metric.cache_miss", "metric.cache_expired", "metric.cache_write", "metric.cache_delete", "metric.cache_build", "metric.cache_failed", "metric.cache_refreshed", "expireall.entries", "deleteall.entries"},
-		Assumptions: []string{"evictions are off (no limits, janitor interval 1h)", "cache_refreshed is emitted before the refresh write: counted as attempts seen by the wrapper (workloads inject no backend faults, so attempts == re-stores)"},
+		Required:    []string{"a.sequential", "a.concurrent", "a.bulk_phases", "eviction.cases", "b.runs", "c.conservation", "d.panicking_builder_runs", "metric.cache_hit", "metric.cache_miss", "metric.cache_expired", "metric.cache_write", "metric.cache_delete", "metric.cache_build", "metric.cache_failed", "metric.cache_refreshed", "expireall.entries", "deleteall.entries"},
+		Assumptions: []string{"evictions are off (no limits, janitor interval 1h) except in the eviction family, which only asserts cache_delete == successful Delete calls", "cache_refreshed is emitted before the refresh write: counted as attempts seen by the wrapper (workloads inject no backend faults, so attempts == re-stores)"},
 		Timeout:     func(string) time.Duration { return 45 * time.Minute },
 	})
 }
@@ -67,6 +68,9 @@ func runC18(b *Batch) {
 		case 3:
 			c18Conservation(b, i)
 			c18PanickingBuilder(b, i)
+			if i%48 == 3 {
+				c18Eviction(b, i)
+			}
 		default:
 			c18Failover(b, i)
 			collectGarbage(i)
@@ -504,4 +508,50 @@ func c18PanickingBuilder(b *Batch, idx int) {
 	}
 	want := map[string]float64{"cache_build{pf}": invocations, "cache_failed{pf}": failures}
 	c18Compare(b, idx, "panicking-builder/"+api, l.get, want, map[string]interface{}{"modes(0=ok,1=err,2=panic)": modes})
+}
+
+// c18Eviction: removals that are not Delete/DeleteAll calls - evictions and expired-entry cleanup by the janitor - must
+// not show up in cache_delete (and every explicit Delete still does, once).
+func c18Eviction(b *Batch, idx int) {
+	rng := rand.New(rand.NewSource(b.CaseSeed(idx) ^ 0x77aa))
+	kind := backendKinds[rng.Intn(3)]
+	l := &ledger{m: map[string]float64{}}
+	L := 20 + rng.Intn(60)
+	be := newBackend(kind, cache.Config{Name: "ev", Stats: l, CountSoftLimit: uint64(L), DeleteExpiredJobInterval: time.Millisecond,
+		DeleteExpiredAfter: time.Millisecond, EvictionStrategy: c16Strategies[rng.Intn(3)]})
+	n := 3*L + rng.Intn(3*L)
+	for i := 0; i < n; i++ {
+		be.Write(bg, []byte(fmt.Sprintf("ev-%d", i)), "v")
+	}
+	nDead := rng.Intn(20)
+	for i := 0; i < nDead; i++ {
+		be.Write(cache.WithTTL(bg, -time.Hour, false), []byte(fmt.Sprintf("dead-%d", i)), "v")
+	}
+	for dl := time.Now().Add(10 * time.Second); be.Len() > L && time.Now().Before(dl); {
+		time.Sleep(200 * time.Microsecond)
+	}
+	b.R.Eval()
+	if be.Len() > L {
+		b.R.Inconcl("C18 eviction family: the janitor did not bring the cache under its limit within the watchdog")
+		return
+	}
+	// explicit deletes of whatever is left
+	var left []string
+	be.Walk(func(k []byte, _ interface{}, _ time.Time) error { left = append(left, string(k)); return nil })
+	del := 0
+	for i, k := range left {
+		if i%3 == 0 && be.Delete(bg, []byte(k)) == nil {
+			del++
+		}
+	}
+	runtime.KeepAlive(be)
+	b.R.Count("eviction.cases", 1)
+	b.R.Nontrivial(fmt.Sprintf("eviction/%s/L=%d", kind, L/20*20))
+	w := map[string]interface{}{"backend": kind, "limit": L, "written": n, "long_expired": nDead, "explicit_deletes": del}
+	if got := l.get("cache_delete{ev}"); got != float64(del) {
+		b.R.Violate(b, idx, "C18:backend/"+kind+":cache_delete-counts-evictions", fmt.Sprintf("%s: cache_delete = %v after %d successful Delete calls (evictions by the janitor: cache_evict = %v, %d long-expired entries cleaned up)", kind, got, del, l.get("cache_evict{ev}"), nDead), w)
+	}
+	if ev := l.get("cache_evict{ev}"); ev <= 0 || ev > float64(n) {
+		b.R.Violate(b, idx, "C18:backend/"+kind+":cache_evict", fmt.Sprintf("%s: cache_evict = %v although %d entries were written over a limit of %d", kind, ev, n, L), w)
+	}
 }
